@@ -220,6 +220,12 @@ def gen_ledger(rng, ntxn=10, with_queries=True, with_pad=True, start_year=2019, 
         for s in STOCKS:
             lines.append(f'{y}-12-31 price {s} {price[s] + (y - start_year) * 7} USD')
         lines.append(f'{y}-06-30 price EUR 1.{15 + y % 10} USD')
+    if rng.random() < 0.3:
+        # prices dated after the day the check runs (budgets, forecasts): "the latest price" is one of these
+        fy = datetime.date.today().year + rng.choice([1, 5, 70])
+        lines.append(f'{fy}-12-31 price {rng.choice(STOCKS)} {rng.randint(200, 400)} USD')
+        if rng.random() < 0.5:
+            lines.append(f'{fy}-01-15 price EUR 2.{rng.randint(10, 90)} USD')
     if with_pad and rng.random() < 0.5:
         pd = datetime.date(start_year, 1, 1) + datetime.timedelta(days=rng.randint(0, 300))
         lines.append(f'{pd} pad Assets:Cash Equity:Opening')
